@@ -141,13 +141,12 @@ def clenshaw_rules(run, db):
             known[idx.key()] = val
         run.check(len(known) >= 1, 'C10.clenshaw', f.qual, 'initialisation', 'the top entries are initialised before the sweep', 'no initial stores found', f.loc())
         # sweep range: from (top initialised index - 1) down to 0
-        rargs = [it.ev(a, fr) for a in node.iter.args]
-        ok = len(rargs) == 3 and dom.rat(rargs[1]) == Rat(R.const(-1)) and dom.rat(rargs[2]) == Rat(R.const(-1))
+        from .common import descending_sweep
+        sw_ = descending_sweep(it, dom, node.iter, fr)
+        ok = sw_ is not None and sw_[1].is_zero()
         if ok:
-            lowest = min((Rat(R.const(0)) + 0 for _ in [0]), default=None)
             idxs = [i for (_, i, _, _, _) in pre if i is not None]
-            start = dom.rat(rargs[0])
-            ok = any((i - 1) == start for i in idxs)
+            ok = any((i - 1) == sw_[0] for i in idxs)
         run.check(ok, 'C10.clenshaw', f.qual, 'sweep range', 'the sweep runs from just below the initialised entries down to 0', 'the Clenshaw sweep range does not continue below the initialised entries down to index 0', f.loc(node))
     # results
     fj = db.func(PF.PJ + 'jacobi_sum_clenshaw')
@@ -263,11 +262,9 @@ def basis_rules(run, db):
             raise AnalysisError('%s: no initial stores found' % qual)
         top = max(known)        # keys are strings; the top index is M / N
         run.check(M.key() in known, 'C10.basis', f.qual, 'top entry', 'the top coefficient is converted first', 'the top entry %s is not initialised' % M.key(), f.loc())
-        rargs = [dom.rat(it.ev(a, fr)) for a in node.iter.args]
-        lowest_init = None
-        for k in known:
-            pass
-        ok = len(rargs) == 3 and rargs[1] == Rat(R.const(-1)) and rargs[2] == Rat(R.const(-1)) and any((M - j - 1) == rargs[0] for j in range(0, 3) if (M - j).key() in known)
+        from .common import descending_sweep
+        sw_ = descending_sweep(it, dom, node.iter, fr)
+        ok = sw_ is not None and sw_[1].is_zero() and any((M - j - 1) == sw_[0] for j in range(0, 3) if (M - j).key() in known)
         run.check(ok, 'C10.basis', f.qual, 'sweep range', 'the sweep continues just below the initialised entries down to index 0', '%s sweeps %s' % (f.name, ast.unparse(node.iter)), f.loc(node))
         if 'Q2d' in qual:
             mv = fr.env.get('m')
@@ -352,60 +349,120 @@ def assembly_rules(run, db):
     A2, B2, C2 = abc(2, 1)
     resid = (A2 + B2 * x) * P[(1, 2)] - C2 * P[(1, 1)] - P[(1, 3)]
     fz = db.func(Q + 'compute_z_zprime_Q2d')
-    # the correction applied to the Clenshaw sum: S = P_0 alpha_0 - (residual) alpha_3 for m == 1 and at least four coefficients
-    # the Clenshaw tables are the locals bound to clenshaw_q2d_der(<coefficients>, m, x), whatever they are called
-    from ..core.pattern import find
-    tabs = {}
-    for b_, n_ in find(fz.node, 'V_A = clenshaw_q2d_der(V_c, V_m, E_x)'):
-        tabs[b_['V_A']] = (b_['V_c'], b_['V_m'])
+    if not (resid.num.is_const() and resid.den.is_const()):
+        raise AnalysisError('abc_q2d_clenshaw: the residual against the published P_3^1 is not a constant: %s' % resid.key())
+    rho = resid.num.const_value() / resid.den.const_value()
+    # The sum the assembly uses, decided by interpreting compute_z_zprime_Q2d itself (helpers are followed) with
+    # clenshaw_q2d_der summarised as a table alpha_<family>[j][k] and coefficient lists of a concrete length:
+    #   S = P_0 alpha[0][0] - rho alpha[0][3]  exactly when m == 1 and the family has more than three coefficients, else P_0 alpha[0][0];
+    #   the same combination of row 1 for the derivative; sag = u^m (cos(m t) S_a + sin(m t) S_b).
+    from ..core.interp import Value
+    from .common import bind_call
 
-    def _root_idx(e):
-        """(root name, last constant index) of a subscript chain A[i][k]."""
-        if not (isinstance(e, ast.Subscript) and isinstance(e.slice, ast.Constant)):
-            return None
-        r_ = e.value
-        while isinstance(r_, ast.Subscript):
-            r_ = r_.value
-        return (r_.id, e.slice.value) if isinstance(r_, ast.Name) else None
+    class CoefV(Value):
+        def __init__(self, fam, n):
+            self.fam, self.n = fam, n
 
-    def _reads(n_, k):
-        return [x_ for x_ in ast.walk(n_.value) if _root_idx(x_) is not None and _root_idx(x_)[0] in tabs and _root_idx(x_)[1] == k and isinstance(x_.value, ast.Subscript)]
-    corr = [n for n in walk_no_nested(fz.node) if isinstance(n, ast.AugAssign) and isinstance(n.op, ast.Sub) and _reads(n, 3)]
-    base = [n for n in walk_no_nested(fz.node) if isinstance(n, ast.Assign) and isinstance(n.value, ast.BinOp) and _root_idx(n.value.right) is not None
-            and _root_idx(n.value.right)[0] in tabs and _root_idx(n.value.right)[1] == 0]
-    okc = resid.num.is_const() and resid.den.is_const() and len(corr) == 4 and len(base) == 4
-    vals = set()
-    for n in corr:
-        v = n.value
-        if isinstance(v, ast.BinOp) and isinstance(v.op, ast.Mult):
-            try:
-                vals.add(dom2.rat(Const(eval(compile(ast.Expression(v.left), '<c>', 'eval'), {'__builtins__': {}}))))
-            except Exception:
-                okc = False
-    bvals = set()
-    for n in base:
-        v = n.value
-        if isinstance(v, ast.BinOp) and isinstance(v.op, ast.Mult) and isinstance(v.left, ast.Constant):
-            bvals.add(dom2.rat(Const(v.left.value)))
-    run.check(okc and vals == {resid} and bvals == {P[(1, 0)]}, 'C10.assembly', fz.qual, 'm = 1 correction',
-              'S = P_0 alpha_0 - rho alpha_3 with rho = (A_2 + B_2 x) P_2^1 - C_2 P_1^1 - P_3^1 = %s (the published P_3^1 is off the effective recurrence by a constant), same for the derivative row' % resid.key(),
-              'compute_z_zprime_Q2d uses S = %s alpha_0 - %s alpha_3; the effective recurrence leaves the residual %s against the published P_3^1 and P_0 = 1/2' % (sorted(b_.key() for b_ in bvals), sorted(v_.key() for v_ in vals), resid.key()), fz.loc())
-    # each correction is guarded by (azimuthal counter == 1) and (its own family has more than three coefficients)
-    degs = {b_['V_N']: b_['V_c'] for b_, _ in find(fz.node, 'V_N = len(V_c) - 1')}
-    guards = set()
-    for n in walk_no_nested(fz.node):
-        if not (isinstance(n, ast.If) and any(c_ in n.body for c_ in corr)):
-            continue
-        fam = {tabs[_root_idx(x_)[0]] for c_ in n.body if c_ in corr for x_ in _reads(c_, 3)}
-        form = None
-        for pat, kind in (('V_m == 1 and V_N > 2', 'deg'), ('V_m == 1 and V_N >= 3', 'deg'), ('V_m == 1 and len(V_c) > 3', 'len'), ('V_m == 1 and len(V_c) >= 4', 'len')):
-            hit = [b_ for b_, t_ in find(n.test, pat) if t_ is n.test]
-            if hit:
-                coef = degs.get(hit[0]['V_N']) if kind == 'deg' else hit[0]['V_c']
-                form = (coef, hit[0]['V_m'])
-        guards.add('m==1 and len(coefficients)>3' if form is not None and fam == {form} else ast.unparse(n.test).replace(' ', ''))
-    run.check(guards == {'m==1 and len(coefficients)>3'} and len(corr) == 4, 'C10.assembly', fz.qual, 'm = 1 guard', 'the correction is applied exactly when m == 1 and the family has an alpha_3 (more than three coefficients)',
-              'the m = 1 correction is guarded by %s' % sorted(guards), fz.loc())
+        def __repr__(self):
+            return 'CoefV(%s,%d)' % (self.fam, self.n)
+
+    class AlphaV(Value):
+        def __init__(self, fam, order, row=None):
+            self.fam, self.order, self.row = fam, order, row
+    fcl = db.func(Q + 'clenshaw_q2d_der')
+    # each case: the number of cosine / sine coefficients per azimuthal order m = 1, 2, ... (0 = that family is absent at that order)
+    cases = [[(4, 4)], [(3, 3)], [(4, 3)], [(6, 1)], [(1, 5)], [(4, 0)], [(0, 5)], [(0, 0), (4, 4)], [(0, 0), (1, 5)], [(4, 4), (0, 4)], [(5, 4), (4, 0)], [(4, 4), (0, 0), (2, 6)]]
+    for case in cases:
+        it4, dom4 = norm_interp(db)
+        R4 = dom4.R
+        oe, osub, oit, opr = dom4.call_ext, dom4.subscript, dom4.iterate, dom4.call_prysm
+        empties = []
+
+        def call_ext(dotted, args, kwargs, node, dom4=dom4, oe=oe):
+            if dotted == 'builtins.len' and args and isinstance(args[0], CoefV):
+                return Const(args[0].n)
+            if dotted in ('numpy.zeros_like',):
+                return Const(0)
+            return oe(dotted, args, kwargs, node)
+
+        def subscript(v, idx, node, dom4=dom4, osub=osub):
+            if isinstance(v, AlphaV) and isinstance(idx, Const) and isinstance(idx.v, int):
+                if v.row is None:
+                    return AlphaV(v.fam, v.order, idx.v)
+                return dom4.func_atom('alpha_%s%d' % (v.fam, v.order), [Const(v.row), idx])
+            return osub(v, idx, node)
+
+        def iterate(v, node, oit=oit):
+            if isinstance(v, AlphaV) and v.row is None:
+                return [AlphaV(v.fam, v.order, 0), AlphaV(v.fam, v.order, 1)]
+            return oit(v, node)
+
+        def call_prysm(fi, args, kwargs, node, dom4=dom4, opr=opr, empties=empties):
+            if fi.qual == fcl.qual:
+                b = bind_call(fi, args, kwargs)
+                c0 = b.get(fi.params[0])
+                mm = dom4.rat(b.get('m'))
+                if not isinstance(c0, CoefV) or mm is None or not (mm.num.is_const() and mm.den.is_const()):
+                    return Unknown('clenshaw_q2d_der called with an unexpected coefficient list / order')
+                if c0.n == 0:
+                    empties.append((c0.fam, node))
+                return AlphaV(c0.fam, int(mm.num.const_value() / mm.den.const_value()))
+            return opr(fi, args, kwargs, node) if opr else None
+        dom4.call_ext, dom4.subscript, dom4.iterate, dom4.call_prysm = call_ext, subscript, iterate, call_prysm
+        ams = lambda: Tup([CoefV('a', na) for na, nb in case], 'list')
+        bms = lambda: Tup([CoefV('b', nb) for na, nb in case], 'list')
+        label = 'cosine/sine coefficients per order m=1..: %s' % ', '.join('%d/%d' % c_ for c_ in case)
+        res4 = [p_ for p_ in it4.run(fz, kwargs=lambda: {'cm0': Const(None), 'ams': ams(), 'bms': bms(), 'u': dom4.sym('u'), 't': dom4.sym('t')}) if p_.outcome == 'return']
+        if len(res4) != 1 or not isinstance(res4[0].value, Tup) or len(res4[0].value.items) != 3:
+            raise AnalysisError('compute_z_zprime_Q2d (%s): expected one path returning (z, dr, dt), got %d' % (label, len(res4)))
+        gots = [dom4.rat(v_) for v_ in res4[0].value.items]
+        if any(g_ is None for g_ in gots):
+            raise AnalysisError('compute_z_zprime_Q2d (%s): result outside NORM: %r' % (label, res4[0].value.items))
+        run.check(not empties, 'C10.sym', fz.qual, 'Clenshaw on an empty family (%s)' % label, 'no Clenshaw sum runs on an empty coefficient list',
+                  'clenshaw_q2d_der is reached with the empty %s-family list (cosine-only or sine-only azimuthal content)' % (empties[0][0] if empties else ''), fz.loc(empties[0][1]) if empties else fz.loc())
+        u4, t4 = Rat(R4.atom('u')), Rat(R4.atom('t'))
+        half4 = Rat(R4.const(1)) / 2
+        wz = wr = wt = Rat(R4.const(0))
+        powlaw = {}
+        for k_, (na, nb) in enumerate(case):
+            m_order = k_ + 1
+            al = lambda fam, j_, q_, m_order=m_order: Rat(R4.func('alpha_%s%d' % (fam, m_order), [Rat(R4.const(j_)), Rat(R4.const(q_))]))
+
+            def S(fam, n_, row, m_order=m_order, al=al):
+                if n_ == 0:
+                    return Rat(R4.const(0))
+                v_ = half4 * al(fam, row, 0)
+                if m_order == 1 and n_ > 3:
+                    v_ = v_ - Rat(R4.const(rho)) * al(fam, row, 3)
+                return v_
+            if na == 0 and nb == 0:
+                continue
+            um1 = Rat(R4.const(1))
+            for _ in range(m_order - 1):
+                um1 = um1 * u4
+            um = um1 * u4
+            mc = Rat(R4.const(m_order))
+            c_, s_ = Rat(R4.trig('cos', mc * t4)), Rat(R4.trig('sin', mc * t4))
+            Sa, Sb, Spa, Spb = S('a', na, 0), S('b', nb, 0), S('a', na, 1), S('b', nb, 1)
+            wz = wz + um * (c_ * Sa + s_ * Sb)
+            wr = wr + um1 * (c_ * (2 * u4 * u4 * Spa + mc * Sa) + s_ * (2 * u4 * u4 * Spb + mc * Sb))
+            wt = wt + mc * um * (Sb * c_ - Sa * s_)
+            for e_, val in ((m_order, um), (m_order - 1, um1)):
+                try:
+                    pm = R4.func('pow', [u4, Rat(R4.const(e_))])
+                    if len(pm.t) == 1:
+                        (mono_,) = pm.t
+                        if len(mono_) == 1 and mono_[0][1] == 1:
+                            powlaw[mono_[0][0]] = val
+                except Exception:
+                    pass
+        for nm_, g_, w_ in (('sag', gots[0], wz), ('radial slope', gots[1], wr), ('azimuthal slope', gots[2], wt)):
+            g2 = g_.subs(powlaw) if powlaw else g_
+            run.check(g2 == w_, 'C10.assembly', fz.qual, '%s, %s' % (nm_, label),
+                      '%s == sum over m of the u^m cos/sin(m t) assembly with S = P_0 alpha_0 (- rho alpha_3 exactly for m = 1 and more than three coefficients of THAT family; rho = %s), absent families contributing nothing'
+                      % (nm_, resid.key()),
+                      'with %s the %s is %s, expected %s: an azimuthal order is evaluated with the wrong m, a family is steered by the other family\'s length, a partial sum of an earlier order is re-used, '
+                      'or the m = 1 correction (residual %s of the published P_3^1, P_0 = 1/2) is misapplied' % (label, nm_, g2.key(), w_.key(), resid.key()), fz.loc())
 
 
 def len1_rules(run, db):
@@ -505,7 +562,7 @@ def _family_loop(f):
     return loops[0], loops[0].target.elts[0].id, loops[0].target.elts[1].id
 
 
-def sym_rules(run, db):
+def _sym_rules_structural(run, db):
     f = db.func(Q + 'compute_z_zprime_Q2d')
     lp, FA, FB = _family_loop(f)
 
@@ -556,7 +613,7 @@ def sym_rules(run, db):
         raise AnalysisError('compute_z_zprime_Q2d: no emptiness guards found')
 
 
-def mirror_rules(run, db):
+def _mirror_rules_structural(run, db):
     """compute_z_zprime_Q2d: the cosine block and the sine block are mirror images under one renaming of family-local names,
     and every name they share does not depend on either family."""
     f = db.func(Q + 'compute_z_zprime_Q2d')
@@ -645,7 +702,7 @@ def mirror_rules(run, db):
                   '(e.g. the m = 1 correction of the sine sum is applied according to the number of cosine coefficients)' % (nm, fam, 'sine' if fam == FA else 'cosine'), f.loc(B))
 
 
-def counter_rules(run, db):
+def _counter_rules_structural(run, db):
     """compute_z_zprime_Q2d walks (a_m, b_m) for m = 1, 2, ...: the order counter advances on EVERY pass, skipped orders included."""
     from .common import every_pass_executes, loop_carried
     f = db.func(Q + 'compute_z_zprime_Q2d')
@@ -732,27 +789,142 @@ def pack_rules(run, db):
 
 
 def lstsq_rules(run, db):
+    """polynomials.lstsq: the right-hand side and the design matrix are restricted by ONE finite-mask, taken from the data as
+    given, and paired sample by sample (C-order flattening on both sides) -- decided in the SHAPE domain with mask provenance,
+    so helper functions, local names and the spelling of the flattening do not matter."""
+    from ..domains.shape import ShapeDomain, Sh, Scalar
+    from ..core.interp import Interp, Value, Slice
+
+    class Mask(Value):
+        def __init__(self, dims, src, early_cast, flat_ok=True):
+            self.dims, self.src, self.early_cast, self.flat_ok = tuple(dims), src, early_cast, flat_ok
+
+        def __repr__(self):
+            return 'Mask%r' % (self.dims,)
+
+    class LDomain(ShapeDomain):
+        def __init__(self):
+            ShapeDomain.__init__(self)
+            self.tag = {}            # id(array) -> the Mask it was restricted by
+            self.cast = set()        # ids of arrays that are a cast / arithmetic image of another array
+            self.keep = []
+            self.solves = []
+
+        def _new(self, dims, like=None, cast=False):
+            r = Sh(tuple(dims))
+            self.keep.append(r)
+            if like is not None and id(like) in self.tag:
+                self.tag[id(r)] = self.tag[id(like)]
+            if cast or (like is not None and id(like) in self.cast):
+                self.cast.add(id(r))
+            return r
+
+        def call_ext(self, dotted, args, kwargs, node):
+            last = dotted.rsplit('.', 1)[-1]
+            a0 = args[0] if args else None
+            if last == 'isfinite' and isinstance(a0, Sh):
+                m = Mask(a0.dims, a0, id(a0) in self.cast)
+                self.keep.append(m)
+                return m
+            if last == 'lstsq' and len(args) >= 2:
+                self.solves.append((args[0], args[1], node))
+                k = args[0].dims[-1] if isinstance(args[0], Sh) and args[0].dims else 'K'
+                return Tup([self._new((k,)), Scalar(), Scalar(), self._new((k,))])
+            if last in ('asarray', 'asanyarray', 'array', 'atleast_1d', 'ascontiguousarray') and isinstance(a0, Sh):
+                return a0
+            if last in ('ravel',) and isinstance(a0, Mask):
+                return self.method(a0, 'ravel', list(args[1:]), kwargs, node)
+            return ShapeDomain.call_ext(self, dotted, args, kwargs, node)
+
+        def method(self, v, name, args, kwargs, node):
+            if isinstance(v, Mask) and name in ('ravel', 'flatten', 'reshape'):
+                order = kwargs.get('order')
+                bad = order is not None and not (isinstance(order, Const) and order.v in ('C', None))
+                if name == 'reshape' and not (len(args) == 1 and isinstance(args[0], Const) and args[0].v == -1):
+                    return Unknown('mask reshape')
+                if bad:
+                    self.interp.emit('layout-order', what='mask.%s(order=%r)' % (name, getattr(order, 'v', order)), node=node)
+                m = Mask(('*'.join(str(d) for d in v.dims),), v.src, v.early_cast, v.flat_ok and not bad)
+                self.keep.append(m)
+                return m
+            if isinstance(v, Sh) and name == 'astype':
+                return self._new(v.dims, like=v, cast=True)
+            r = ShapeDomain.method(self, v, name, args, kwargs, node)
+            if isinstance(r, Sh) and isinstance(v, Sh) and r is not v:
+                self.keep.append(r)
+                if id(v) in self.tag:
+                    self.tag[id(r)] = self.tag[id(v)]
+                if id(v) in self.cast:
+                    self.cast.add(id(r))
+            return r
+
+        def getattr(self, v, name, node):
+            r = ShapeDomain.getattr(self, v, name, node)
+            if isinstance(r, Sh) and isinstance(v, Sh) and r is not v:
+                self.keep.append(r)
+                if id(v) in self.tag:
+                    self.tag[id(r)] = self.tag[id(v)]
+            return r
+
+        def binop(self, op, a, b, node):
+            r = ShapeDomain.binop(self, op, a, b, node)
+            if isinstance(r, Sh):
+                self.keep.append(r)
+                self.cast.add(id(r))
+            return r
+
+        def subscript(self, v, idx, node):
+            if isinstance(v, Sh) and isinstance(idx, Mask):
+                if idx.dims != v.dims[-len(idx.dims):]:
+                    self.interp.emit('mask-mismatch', array=v.dims, mask=idx.dims, node=node)
+                r = self._new(tuple(v.dims[:-len(idx.dims)]) + ('V',), cast=id(v) in self.cast)
+                self.tag[id(r)] = idx
+                return r
+            if isinstance(v, Sh) and isinstance(idx, Tup) and any(isinstance(x, Mask) for x in idx.items):
+                dims, k, tagm = [], 0, None
+                for x in idx.items:
+                    if isinstance(x, Mask):
+                        if tuple(v.dims[k:k + len(x.dims)]) != x.dims:
+                            self.interp.emit('mask-mismatch', array=v.dims, mask=x.dims, node=node)
+                        dims.append('V')
+                        k += len(x.dims)
+                        tagm = x
+                    elif isinstance(x, Slice):
+                        dims.append(v.dims[k])
+                        k += 1
+                    else:
+                        return Unknown('mixed index')
+                r = self._new(tuple(dims) + tuple(v.dims[k:]), cast=id(v) in self.cast)
+                self.tag[id(r)] = tagm
+                return r
+            return ShapeDomain.subscript(self, v, idx, node)
     f = db.func(P + 'lstsq')
-    assigns = [(ast.unparse(n.targets[0]), n) for n in sorted([n for n in walk_no_nested(f.node) if isinstance(n, ast.Assign)], key=lambda s: s.lineno)]
-    masks = [n for t, n in assigns if t == 'mask']
-    ok = len(masks) == 1 and ast.unparse(masks[0].value).replace(' ', '') == 'np.isfinite(data)'
-    run.check(ok, 'C10.lstsq', f.qual, 'mask', 'one mask = isfinite(data)', 'the validity mask is not isfinite(data) computed once', f.loc())
-    # the mask is taken from the data AS GIVEN: no cast/arithmetic on data before isfinite (a cast to an integer/boolean dtype turns NaN into a number)
-    early = [n for t, n in assigns if t == 'data' and masks and n.lineno < masks[0].lineno]
-    benign = lambda v: ast.unparse(v).replace(' ', '') in ('np.asarray(data)', 'np.asanyarray(data)', 'np.array(data)', 'np.atleast_1d(data)')
-    bad_early = [n for n in early if not benign(n.value)]
-    run.check(not bad_early, 'C10.lstsq', f.qual, 'mask before cast', 'the finite-mask is computed from the data as given (no cast or arithmetic before it)',
-              '`%s` rewrites the data before the finite-mask is taken: with integer or boolean modes the cast truncates the data and turns NaN/inf samples into ordinary numbers that are no longer ignored'
-              % (norm_stmt(bad_early[0]) if bad_early else ''), f.loc(bad_early[0]) if bad_early else f.loc())
-    d = [n for t, n in assigns if t == 'data']
-    m = [n for t, n in assigns if t == 'modes']
-    okd = any(ast.unparse(n.value).replace(' ', '') == 'data[mask]' for n in d)
-    okm = any(ast.unparse(n.value).replace(' ', '') in ('modes[:,mask.ravel()].T', 'modes[:,mask.flatten()].T', 'modes[:,mask.reshape(-1)].T') for n in m)
-    okr = any(ast.unparse(n.value).replace(' ', '') == 'modes.reshape((modes.shape[0],-1))' for n in m)
-    run.check(okd and okm and okr, 'C10.lstsq', f.qual, 'same mask', 'data and the flattened modes are indexed by the same finite mask (modes on the sample axis)',
-              'data and modes are not restricted by the same finite-mask (data: %s, modes: %s)' % ([ast.unparse(n.value) for n in d], [ast.unparse(n.value) for n in m]), f.loc())
-    calls = [n for n in walk_no_nested(f.node) if isinstance(n, ast.Call) and ast.unparse(n.func).endswith('linalg.lstsq')]
-    run.check(len(calls) == 1 and [ast.unparse(a) for a in calls[0].args[:2]] == ['modes', 'data'], 'C10.lstsq', f.qual, 'solve', 'lstsq(modes, data)', 'least squares is not solved as lstsq(modes, data)', f.loc())
+    dom = LDomain()
+    it = Interp(db, dom)
+    holder = {}
+
+    def kw():
+        holder['data'] = Sh(('r', 'c'))
+        return {'modes': Sh(('K', 'r', 'c')), 'data': holder['data']}
+    res = [p for p in it.run(f, kwargs=kw) if p.outcome == 'return']
+    if not res or not dom.solves:
+        raise AnalysisError('polynomials.lstsq: no returning path reaches numpy.linalg.lstsq')
+    for p in res:
+        lay = [e for e in p.events if e['kind'] in ('layout-order', 'mask-mismatch', 'reshape-reorders')]
+        run.check(not lay, 'C10.lstsq', f.qual, 'sample pairing', 'the mask, the data and the modes are flattened in the same (C) order',
+                  'the samples of data and modes are paired through %s: for arrays that are not C-ordered the mask no longer selects the same samples on both sides'
+                  % (lay[0].get('what') or lay[0]['kind'] if lay else ''), f.loc(lay[0]['node']) if lay else f.loc())
+    A, b, node = dom.solves[-1]
+    ta, tb = dom.tag.get(id(A)), dom.tag.get(id(b))
+    ok = isinstance(A, Sh) and isinstance(b, Sh) and A.dims == ('V', 'K') and b.dims == ('V',)
+    run.check(ok, 'C10.lstsq', f.qual, 'solve', 'lstsq(design matrix of shape (valid samples, modes), valid data)',
+              'least squares is solved with a matrix of shape %r and a right-hand side of shape %r (expected (valid, modes) and (valid,))' % (getattr(A, 'dims', None), getattr(b, 'dims', None)), f.loc(node))
+    same = ta is not None and tb is not None and ta.src is tb.src and ta.src is holder.get('data')
+    run.check(same, 'C10.lstsq', f.qual, 'same mask', 'data and the flattened modes are restricted by the same finite-mask of the data',
+              'data and modes are not restricted by one finite-mask of the data (the matrix is restricted by %r, the right-hand side by %r)' % (ta, tb), f.loc(node))
+    early = (ta is not None and ta.early_cast) or (tb is not None and tb.early_cast)
+    run.check(not early, 'C10.lstsq', f.qual, 'mask before cast', 'the finite-mask is computed from the data as given (no cast or arithmetic before it)',
+              'the data is rewritten (cast / arithmetic) before the finite-mask is taken: with integer or boolean modes the cast truncates the data and turns NaN/inf samples into ordinary numbers that are no longer ignored', f.loc(node))
     from . import c06
     c06.sum_rules(run, db, rule='C10.tensordot')
 
@@ -778,3 +950,20 @@ def check(run, db, tier):
     run.require_instances('C10.assembly', 7)
     run.require_instances('C10.clenshaw', 12)
     run.require_instances('C10.len1', 4)
+
+
+def _deferring(fn, what):
+    def rule(run, db):
+        try:
+            fn(run, db)
+        except AnalysisError as e:
+            # the loop over the two families is not in the form this structural rule reads (helper extracted, enumerate(...)):
+            # the property is decided by the interpretation of the whole routine (C10.assembly / C10.sym cases above)
+            run.ok('C10.sym', Q + 'compute_z_zprime_Q2d', '%s: not in the two-block form (%s); decided by interpretation of the routine on families of different lengths' % (what, str(e)[:80]))
+    rule.__name__ = fn.__name__.strip('_').replace('_structural', '')
+    return rule
+
+
+sym_rules = _deferring(_sym_rules_structural, 'symmetric guards')
+mirror_rules = _deferring(_mirror_rules_structural, 'mirror blocks')
+counter_rules = _deferring(_counter_rules_structural, 'order counter')
